@@ -255,6 +255,17 @@ func (p *PoolTracker) HoldWhile(m *pool.Message, who string, f func()) {
 }
 
 // CheckWire verifies that a message seen on the wire is not the poisoned content of a released message (C12.R5).
+// CheckWireRaw looks at a datagram the endpoint put on the wire before anybody tries to parse it: the poison written
+// into the marshal buffer of a released message starts with (any first byte), code 0xFD, message ID 0x6b6b.
+func (p *PoolTracker) CheckWireRaw(b []byte) {
+	if !p.Enabled || len(b) < 4 {
+		return
+	}
+	if b[1] == byte(poisonCode) && b[2] == byte(poisonMID>>8) && b[3] == byte(poisonMID&0xff) {
+		p.env.Violate("C12.R5", "poison-on-the-wire", "a datagram that starts with the poison of a released pooled message's marshal buffer was put on the wire: % x", b[:min(len(b), 16)])
+	}
+}
+
 func (p *PoolTracker) CheckWire(m *WMsg) {
 	if !p.Enabled || m == nil {
 		return
